@@ -241,6 +241,73 @@ kfs_harness! {
     }
 }
 
+// ---- no maintenance due: a write is a constant number of calls and never lists a directory (C20) ----
+kfs_harness! {
+    #[kani::unwind(48)]
+    #[kani::stub(crate::sharded::Cache::shard_ids, ids_01)]
+    #[kani::stub(crate::sharded::Cache::random_shard_id, random_2)]
+    #[kani::stub(crate::raw_cache::prune, crate::kv_kfs::spec_prune)]
+    #[kani::stub(crate::trigger::PeriodicTrigger::event, crate::kv_kfs::s_trigger_event)]
+    fn sharded_write_notrigger() {
+        kfs::reset();
+        kfs::k().trigger_mode = 1;
+        let _loc = sharded_pre(0, 1);
+        kfs::mkdir(kfs::D_X);
+        let _src = kfs::user_source(kfs::D_X, 0, kfs::S_A, 9, true);
+        // a large cache whose load estimates are far below capacity: no forced maintenance either
+        let c = Cache::new(kfs::path_of(kfs::D_S, kfs::NONE), 3, 3000);
+        let key = Key::new(kfs::KEY_A, kani::any(), kani::any());
+        let from = kfs::path_of(kfs::D_X, 0);
+        let put: bool = kani::any();
+        kfs::begin_op(if put { kfs::OP_SHARDED_PUT } else { kfs::OP_SHARDED_SET }, 0, 1, 1000);
+        let r = if put { c.put(key, &from) } else { c.set(key, &from) };
+        assert!(r.is_ok(), "KV-C05: the write succeeds");
+        let st = kfs::k();
+        assert!(st.kind_calls[kfs::C_READDIR as usize] == 0 && st.kind_calls[kfs::C_DSTAT as usize] == 0,
+                "KV-C20: outside maintenance a write never lists a directory (its cost does not depend on the number of entries)");
+        assert!(st.calls <= 14, "KV-C20: outside maintenance a write issues a constant number of filesystem calls");
+        assert!(st.open_peak == 0 && st.open_now == 0, "KV-C20: a sharded write opens no file");
+        kani::cover!(st.kind_calls[kfs::C_MKDIR as usize] > 0, "write into a shard whose directory was missing");
+        std::mem::forget(r);
+    }
+}
+
+// ---- invalid names through the sharded front-end (C16) ------------------------------------------------
+kfs_harness! {
+    #[kani::unwind(48)]
+    #[kani::stub(crate::sharded::Cache::shard_ids, ids_01)]
+    #[kani::stub(crate::sharded::Cache::random_shard_id, random_2)]
+    #[kani::stub(crate::raw_cache::prune, crate::kv_kfs::spec_prune)]
+    fn sharded_invalid_names() {
+        kfs::reset();
+        kfs::mkdir(dir_of(0));
+        kfs::mkdir(dir_of(1));
+        kfs::mkdir(kfs::D_X);
+        let ia = kfs::install(dir_of(1), kfs::S_A, kfs::any_published(kfs::S_A, 50));
+        let src = kfs::user_source(kfs::D_X, 0, kfs::S_A, 9, true);
+        let pre = kfs::k().ino[ia as usize];
+        let c = Cache::new(kfs::path_of(kfs::D_S, kfs::NONE), 3, 0);
+        let from = kfs::path_of(kfs::D_X, 0);
+        let names = ["", ".x", "/x", "\\x"];
+        let mut w = 0;
+        while w < 4 {
+            let key = Key::new(names[w], 1, 2);
+            let g = matches!(c.get(key), Err(e) if e.kind() == std::io::ErrorKind::InvalidInput);
+            let t = matches!(c.touch(key), Err(e) if e.kind() == std::io::ErrorKind::InvalidInput);
+            let s = matches!(c.set(key, &from), Err(e) if e.kind() == std::io::ErrorKind::InvalidInput);
+            let p = matches!(c.put(key, &from), Err(e) if e.kind() == std::io::ErrorKind::InvalidInput);
+            assert!(g && t && s && p, "KV-C16: operations given an empty name, or one starting with '.', '/' or '\\', fail with InvalidInput");
+            w += 1;
+        }
+        // the existence probe that precedes validation in set/put is a read; nothing may be modified
+        assert!(kfs::mutating_calls() == 0, "KV-C16: an operation on an invalid name modifies nothing");
+        let n = kfs::k().ino[ia as usize];
+        assert!(kfs::bound(dir_of(1), kfs::S_A) == ia && kfs::bound(kfs::D_X, 0) == src && n.at_s == pre.at_s && n.at_ns == pre.at_ns && n.mt_s == pre.mt_s,
+                "KV-C16: an operation on an invalid name modifies nothing");
+        kani::cover!(true, "reachable");
+    }
+}
+
 // ---- constructor clamping, naming, constants (C12) ---------------------------------------------
 #[kani::proof]
 #[kani::unwind(8)]
